@@ -80,6 +80,8 @@ func Parse(repo, rel string) (*File, error) {
 	if err != nil {
 		return nil, fmt.Errorf("parse %s: %w", rel, err)
 	}
+	recordRef(repo, rel)
+	alphaNormalize(repo, fset, f, rel) // see lib_alpha.go: undo renamed locals / reworded comments and Debug messages
 	return &File{Fset: fset, AST: f, Path: rel}, nil
 }
 
